@@ -48,6 +48,12 @@ def gen(rng):
     s.n_m = rng.choice([1, 2, 2, 3])
     s.s_type = rng.choice(types)
     s.s_weights = [rng.choice([1, 2, 16]) for _ in range(rng.choice([1, 1, 2]))]
+    # one run in four takes the route WITHOUT a mapping: one atom per bead, the atom types are the interaction types and the xml
+    # topology itself declares the bonds / angles / dihedrals (exclusions and bonded terms then come from every worker's own topology)
+    s.direct = rng.random() < 0.25
+    if s.direct:
+        s.m_beads = [(t, [1]) for (t, _) in s.m_beads]
+        s.s_weights = [1]
     s.n_s = rng.randint(2, 6)
     # which bonded groups the mapping defines
     s.has_angle = ncg >= 3 and rng.random() < 0.8
@@ -160,15 +166,27 @@ def write_inputs(s, d):
         f.write("<topology>\n <molecules>\n")
         f.write('  <molecule name="M" nmols="%d" nbeads="%d">\n' % (s.n_m, natm))
         k = 0
+        direct = getattr(s, "direct", False)
         for (t, ws) in s.m_beads:
             for w in ws:
                 k += 1
-                f.write('   <bead name="a%d" type="a" mass="%s" q="0"/>\n' % (k, "1.0"))
+                f.write('   <bead name="a%d" type="%s" mass="%s" q="0"/>\n' % (k, t if direct else "a", "1.0"))
         f.write("  </molecule>\n")
         f.write('  <molecule name="S" nmols="%d" nbeads="%d">\n' % (s.n_s, len(s.s_weights)))
         for k in range(len(s.s_weights)):
-            f.write('   <bead name="s%d" type="s" mass="1.0" q="0"/>\n' % (k + 1))
-        f.write("  </molecule>\n </molecules>\n</topology>\n")
+            f.write('   <bead name="s%d" type="%s" mass="1.0" q="0"/>\n' % (k + 1, s.s_type if direct else "s"))
+        f.write("  </molecule>\n </molecules>\n")
+        if direct:
+            n = len(s.m_beads)
+            f.write(" <bonded>\n")
+            if n >= 2:
+                f.write("  <bond><name>bond</name><beads>\n%s</beads></bond>\n" % "".join("    M:a%d M:a%d\n" % (i + 1, i + 2) for i in range(n - 1)))
+            if s.has_angle:
+                f.write("  <angle><name>angle</name><beads>\n%s</beads></angle>\n" % "".join("    M:a%d M:a%d M:a%d\n" % (i + 1, i + 2, i + 3) for i in range(n - 2)))
+            if s.has_dih:
+                f.write("  <dihedral><name>dihedral</name><beads>\n%s</beads></dihedral>\n" % "".join("    M:a%d M:a%d M:a%d M:a%d\n" % (i + 1, i + 2, i + 3, i + 4) for i in range(n - 3)))
+            f.write(" </bonded>\n")
+        f.write("</topology>\n")
     with open(os.path.join(d, "m.xml"), "w") as f:
         f.write("<cg_molecule>\n <name>M</name>\n <ident>M</ident>\n <topology>\n  <cg_beads>\n")
         k = 0
@@ -311,6 +329,8 @@ def run_one(exe, s, keep=None):
     try:
         write_inputs(s, d)
         cmd = [exe, "--top", "topol.xml", "--trj", "traj.gro", "--cg", "m.xml;s.xml", "--options", "opt.xml", "--nt", str(s.nt)]
+        if getattr(s, "direct", False):
+            cmd = [exe, "--top", "topol.xml", "--trj", "traj.gro", "--options", "opt.xml", "--nt", str(s.nt)]
         if s.imc:
             cmd.append("--do-imc")
         if s.intra:
